@@ -4,8 +4,8 @@ namespace Cst.Drv
 open Mem
 
 def memOrds : Mem.Ords :=
-  ⟨isRel SourceFacts.cloneOrdering, isAcq SourceFacts.cloneOrdering,
-   isRel SourceFacts.dropOrdering, isAcq SourceFacts.dropOrdering⟩
+  ⟨isRel DriverFacts.cloneOrdering, isAcq DriverFacts.cloneOrdering,
+   isRel DriverFacts.dropOrdering, isAcq DriverFacts.dropOrdering⟩
 
 /-- re-tabulate the clocks (they are closures over closures after a step; extensionally the same function
     on the thread indices in use, evaluated once) -/
